@@ -155,6 +155,8 @@ def generate(rng, tier, idx):
         sc.update(front='userwriter', shape=name, query=q, rows=rows, join_rows=join_rows,
                   header=(workload.HEADER[:max(len(r) for r in rows)] if rows and rng.random() < 0.3 and len(set(len(r) for r in rows)) == 1 else None),
                   poison=(rng.randrange(len(rows)) if rows and rng.random() < 0.2 else None))
+        if rng.random() < 0.12:
+            sc['in_thread'] = True
         return sc
     if family == 'errors':
         sc.update(gen_error_scenario(rng))
@@ -220,6 +222,12 @@ def generate(rng, tier, idx):
                      'chunk_size': rng.choice([1, 3, 8, 1024])}
         if front != 'stream' and target == 'input' and sc['in_from'] == 'file' and rng.random() < 0.5:
             sc['bad']['pieces'] = None      # read the real file, no schedule control
+    if sc['front'] in ('stream', 'file', 'sqlite') and rng.random() < 0.12:
+        sc['in_thread'] = True      # the library call is made from a thread other than the main one
+    if sc['front'] in ('file', 'cli') and JOIN_FILE in sc['query'] and rng.random() < 0.4:
+        # legal file names that are awkward inside messages and templates: braces, percent signs
+        sc['join_name'] = rng.choice(['jt{0}.csv', 'j{x}t.csv', 'jt}.csv', 'jt%s.csv', 'j%dt.csv', 'jt{.csv'])
+        sc['query'] = sc['query'].replace(JOIN_FILE, sc['join_name'])
     return sc
 
 
@@ -476,6 +484,38 @@ def run_once(sc, fault):
     return obs
 
 
+def _invoke(sc, fn):
+    """Call fn(); with the in_thread knob from a thread other than the main one (a library is called from worker threads
+    too: whatever it does on a fault path has to be legal there). Exceptions come back with their traceback."""
+    if not sc.get('in_thread'):
+        return fn()
+    import threading
+    box = {}
+
+    def body():
+        try:
+            box['value'] = fn()
+        except BaseException as e:
+            box['exc'] = e
+
+    th = threading.Thread(target=body, name='caller-worker')
+    th.start()
+    th.join()
+    if 'exc' in box:
+        raise box['exc']
+    return box.get('value')
+
+
+def _sigpipe_guard(obs):
+    """CPython ignores SIGPIPE from start-up on; that is what turns a write to a dead pipe into BrokenPipeError. If the code
+    under test has changed the disposition, the next such write would kill the process (the harness too): note and restore."""
+    import signal
+    now = signal.getsignal(signal.SIGPIPE)
+    if now != signal.SIG_IGN:
+        obs['sigpipe_disposition'] = repr(now)
+        signal.signal(signal.SIGPIPE, signal.SIG_IGN)
+
+
 def _capture_exc(t, obs, e, tb):
     frames = tree_frames(tb)
     cls = type(e).__name__
@@ -508,10 +548,10 @@ def _run_userwriter(t, sc, fault, obs):
     warnings = []
     with fsseam.ProcessSeam(t) as seam:
         try:
-            t.engine.query(query, it, wr, warnings, reg)
+            _invoke(sc, lambda: t.engine.query(query, it, wr, warnings, reg))
             obs['outcome'] = ['ok']
         except Exception as e:
-            _capture_exc(t, obs, e, sys.exc_info()[2])
+            _capture_exc(t, obs, e, e.__traceback__)
     seam.restore_hook()
     obs['out'] = wr.rows
     obs['fired'] = refuse_at is not None and wr.nwrites > refuse_at
@@ -571,10 +611,11 @@ def _run_stream(t, sc, fault, obs):
                         return t.csv.CSVRecordIterator(make_input(jdata, 'join', table_id), enc, sc['delim'], sc['policy'], has_header=sc['with_headers'],
                                                        table_name=table_id, variable_prefix=alias)
                 reg = Reg()
-            t.engine.query(sc['query'], it, wr, warnings, reg)
+            _invoke(sc, lambda: t.engine.query(sc['query'], it, wr, warnings, reg))
             obs['outcome'] = ['ok']
         except Exception as e:
-            _capture_exc(t, obs, e, sys.exc_info()[2])
+            _capture_exc(t, obs, e, e.__traceback__)
+        _sigpipe_guard(obs)
         obs['stdout_closed_by_writer'] = bool(seam.stdout.closed)
     it = wr = reg = None
     obs['out'] = get_out()
@@ -627,7 +668,7 @@ def _run_process(t, sc, fault, obs):
     raws = {}
     in_path = os.path.join(w, 'input.csv')
     out_path = os.path.join(w, 'nodir', 'out.csv') if sc.get('missing_outdir') else os.path.join(w, 'out.csv')
-    join_path = os.path.join(w, JOIN_FILE)
+    join_path = os.path.join(w, sc.get('join_name') or JOIN_FILE)
     in_data = _input_bytes(sc, fault, 'input') if 'in_text' in sc else b''
     if sc.get('input_bad_pos') is not None:
         in_data = in_data[:sc['input_bad_pos']] + b'\xff' + in_data[sc['input_bad_pos']:]
@@ -700,7 +741,7 @@ def _run_process(t, sc, fault, obs):
     if front in ('sqlite', 'sqlite_cli'):
         db_path = _build_sqlite(w, sc)
     table = sc.get('sqlite_table', 'ta')
-    query = sc['query'].replace(JOIN_FILE, 'tb') if db_path else sc['query']
+    query = sc['query'].replace(sc.get('join_name') or JOIN_FILE, 'tb') if db_path else sc['query']
     if front == 'cli':
         argv = ['rbql', '--query', query, '--delim', sc['delim'], '--policy', sc['policy'], '--encoding', enc]
         if not use_stdin:
@@ -730,20 +771,21 @@ def _run_process(t, sc, fault, obs):
                 except SystemExit as e:
                     obs['outcome'] = ['exit', e.code if isinstance(e.code, int) else (0 if e.code is None else 1)]
             elif front == 'file':
-                t.csv.query_csv(query, None if use_stdin else in_path, sc['delim'], sc['policy'], out_path if to_file else None,
-                                sc.get('out_delim', sc['delim'] if sc.get('out_policy') != 'monocolumn' else ''), sc.get('out_policy', sc['policy']), enc, warnings,
-                                sc['with_headers'], None, '', bool(sc.get('color')) and not to_file)
+                _invoke(sc, lambda: t.csv.query_csv(query, None if use_stdin else in_path, sc['delim'], sc['policy'], out_path if to_file else None,
+                                                    sc.get('out_delim', sc['delim'] if sc.get('out_policy') != 'monocolumn' else ''), sc.get('out_policy', sc['policy']), enc, warnings,
+                                                    sc['with_headers'], None, '', bool(sc.get('color')) and not to_file))
                 obs['outcome'] = ['ok']
             else:
                 import sqlite3
-                con = sqlite3.connect(db_path)
-                t.sqlite.query_sqlite_to_csv(query, con, table, out_path if to_file else None, ',', 'quoted_rfc', 'utf-8', warnings)
+                con = sqlite3.connect(db_path, check_same_thread=False)
+                _invoke(sc, lambda: t.sqlite.query_sqlite_to_csv(query, con, table, out_path if to_file else None, ',', 'quoted_rfc', 'utf-8', warnings))
                 obs['outcome'] = ['ok']
         except Exception as e:
-            _capture_exc(t, obs, e, sys.exc_info()[2])
+            _capture_exc(t, obs, e, e.__traceback__)
         finally:
             if con is not None:
                 con.close()
+        _sigpipe_guard(obs)
         obs['leaked'] = tracker.leaked()
         obs['stdout_closed_by_writer'] = bool(seam.stdout.closed)
         if real_pipe_w is not None:
@@ -819,6 +861,9 @@ def check_pipe(sc, fault, obs, full):
         return ('pipe_escape', {'outcome': obs['outcome'], 'where': obs.get('where'), 'line': obs.get('where_line'), 'stderr': obs.get('stderr', '')[-300:]})
     if not str(full['out']).startswith(str(obs['out'])):
         return ('pipe_prefix', {'emitted': obs['out'], 'full': full['out']})
+    if obs.get('sigpipe_disposition'):
+        return ('pipe_signal_disposition', {'sigpipe': obs['sigpipe_disposition'],
+                                            'note': 'after this query the process no longer ignores SIGPIPE: the next write to a dead pipe kills it instead of raising BrokenPipeError'})
     if obs.get('exit_flush_fails'):
         return ('pipe_exit_status', {'note': 'sys.stdout left open with unflushable data: the interpreter would report BrokenPipeError at exit (status 120)'})
     if obs['first_fail'] and (obs['pulls_after_fail'] > 1 or obs['writes_after_fail'] > 1):
@@ -1098,3 +1143,7 @@ def shrinks(sc):
             c = dict(sc)
             c[k] = v
             yield c
+    if sc.get('in_thread'):
+        c = dict(sc)
+        c.pop('in_thread')
+        yield c
